@@ -654,6 +654,6 @@ func init() {
 		Level:       "other",
 		Explanation: "Structural necessary conditions of 'failures time out, wake everyone and leak nothing': each reaper is armed with its own configured timeout and documented status code; the retry counter only restarts on (re)assignment and re-issue is bounded; Synchronize re-arms the worker cleanup on every exit after touching cleanup state; every blocking select has a context/timer arm and runs unlocked; every container of client/worker state is emptied by code reachable from a cleanup callback; callbacks only run from enter(). That timers fire and quiescence over all crash points are not decided.",
 		Assumptions: []string{"the clock delivers timer events", "cleanup callbacks are only registered through cleanupQueue.add"},
-		Rules:       []RuleFunc{c06Cfg, c06Retry, c06Rearm, c06Select, c06Reaper, schedWaiters, schedWorkerRemoval, schedDrainLoops, schedStageWake, schedRemoveIfEmptyWalk, c01Guarded, schedQueueRemovalCancel, schedPropagationLoops, schedRearmTime, schedRevalidateAfterRelock},
+		Rules:       []RuleFunc{c06Cfg, c06Retry, c06Rearm, c06Select, c06Reaper, schedWaiters, schedWorkerRemoval, schedDrainLoops, schedStageWake, schedRemoveIfEmptyWalk, c01Guarded, schedQueueRemovalCancel, schedPropagationLoops, schedRearmTime, schedRevalidateAfterRelock, schedStaleWorkerRemoval},
 	})
 }
